@@ -18,6 +18,10 @@ is equal in C and C'; every environment used or defined, the status section and 
 are equal.  Differences are reported per leaf, so one recorded finding does not hide another.
 Coverage: every option key of the legacy format must have been written (seen in the files) with a
 non-default value.
+The number of stages is a boundary dimension: besides 1-4 stages, a share of the documents has 9, 10, 11, 12, 13,
+16, 20, 24 stages (sparse: mostly one tiny component per stage, some fully optioned ones, stage variables on the high
+stages too), in both routes; floors demand documents with >= 11 stages per route and compared components / stage
+variables / options living in stages >= 10.
 Environment names are generated structurally (gen_env_name): among others names that embed the format's own
 section prefix ENV- (any case; at the start, inside, at the end, repeated), reserved section names as parts of
 longer names, names spelled with the prefix's characters only; floors demand that such names were round-tripped
@@ -109,6 +113,8 @@ _COMPNAMES = ['gen', 'Sim', 'post-proc', 'a.b', 'comp2', 'X', 'lower_case', 'Cam
 # ENVIRONMENT.  Hostile direction: names that contain the format's own markers - the section prefix in any case
 # at the start / inside / at the end of the name, once or repeated; the reserved words as part of a longer name -,
 # names spelled only with the characters of the prefix, mixed case, and the usual punctuation.
+MANY_STAGES_SHARE = 0.15
+MANY_STAGES_COUNTS = [9, 10, 10, 11, 11, 12, 12, 13, 16, 20, 24]
 ENV_SECTION_PREFIX = 'ENV-'
 _ENV_MARKERS = [ENV_SECTION_PREFIX.lower(), ENV_SECTION_PREFIX, ENV_SECTION_PREFIX.capitalize()]
 _ENV_WORDS = ['gpu', 'conda', 'py', 'ml', 'mpi', 'gnu.8', 'x', '3', 'lib_2', 'v', 'Intel', 'my', 'python']
@@ -232,9 +238,15 @@ SIMPLE_PATHS = [p for p in OPTIONS if p not in (
     'resourceManager.config.backend', 'executors.pre.lsf-dm-in', 'executors.post.lsf-dm-out', 'command.interpreter')]
 
 
-def gen_doc(r, force_paths=()):
+def gen_doc(r, force_paths=(), min_stages=None):
     """A FlowIR document expressible in the legacy format, plus the platform to instantiate."""
-    nstages = r.choice([1, 2, 2, 3, 3, 4])
+    # number of stages: a boundary dimension of its own (the format stores stage <N> in stages.d/stage<N>[.instance]
+    # .conf, so the index gains a digit at 10 and again at 100).  "Many-stage" documents stay small: most of their
+    # stages hold one tiny component, a few stages (low AND high ones) hold fully optioned components.
+    many = r.random() < MANY_STAGES_SHARE
+    if min_stages is not None:
+        many = True
+    nstages = r.choice([n for n in MANY_STAGES_COUNTS if n >= (min_stages or 0)]) if many else r.choice([1, 2, 2, 3, 3, 4])
     use_platform = r.random() < 0.3
     varnames = r.sample(_VARNAMES, r.randint(1, 6))
     gvars = {v: gen_value(r, []) for v in varnames[:r.randint(0, len(varnames))]}
@@ -263,7 +275,7 @@ def gen_doc(r, force_paths=()):
     comps = []
     names_by_stage = {}
     for s in range(nstages):
-        names = r.sample(_COMPNAMES, r.randint(1, 3))
+        names = r.sample(_COMPNAMES, (2 if r.random() < 0.15 else 1) if many else r.randint(1, 3))
         names_by_stage[s] = names
     force = list(force_paths)
     replicating = None
@@ -271,7 +283,9 @@ def gen_doc(r, force_paths=()):
         for name in names_by_stage[s]:
             visible = sorted(set(gvars) | set(svars.get(s, {})))
             cvars = {}
-            if r.random() < 0.5:
+            # sparse placement in many-stage documents; stages with a two-digit index are rich more often
+            tiny = many and r.random() >= (0.45 if s >= 10 else 0.2)
+            if r.random() < (0.15 if tiny else 0.5):
                 for v in r.sample(varnames, r.randint(1, min(2, len(varnames)))):
                     if v != 'stage-name':
                         val = gen_value(r, lower_than(v, visible))
@@ -282,6 +296,8 @@ def gen_doc(r, force_paths=()):
             chosen = set()
             k = r.random()
             npaths = 0 if k < 0.1 else (r.randint(1, 6) if k < 0.7 else r.randint(6, 20))
+            if tiny:
+                npaths = r.choice([0, 0, 1, 2])
             chosen.update(r.sample(SIMPLE_PATHS, npaths))
             while force and len(chosen) < 30 and r.random() < 0.9:
                 chosen.add(force.pop())
@@ -399,6 +415,18 @@ def gen_doc(r, force_paths=()):
             out[oname] = e
         doc['output'] = out
     return doc, platform
+
+
+def restore_int_keys(doc):
+    """JSON (the replay file) turns the integer stage indices that key variables.<platform>.stages and
+    status-report into strings; FlowIR wants integers there."""
+    doc = copy.deepcopy(doc)
+    for pv in doc.get('variables', {}).values():
+        if isinstance(pv.get('stages'), dict):
+            pv['stages'] = {int(k): v for k, v in pv['stages'].items()}
+    if isinstance(doc.get('status-report'), dict):
+        doc['status-report'] = {int(k): v for k, v in doc['status-report'].items()}
+    return doc
 
 
 def weights(r, n):
@@ -596,6 +624,16 @@ def judge_doc(doc, platform, route, w, scratch_root):
             else:
                 w.count('optnotwritten_' + k)
     w.count('components_compared', len(before['components']))
+    # stage-count dimension: what the generator produced (doc_*) and what was actually compared (clause_*, below)
+    doc_stages = {c['stage'] for c in doc['components']}
+    w.count('doc_stages_%s' % ('1-8' if len(doc_stages) <= 8 else '9-10' if len(doc_stages) <= 10 else 'ge11'))
+    if len(doc_stages) >= 11:
+        w.count('doc_stages_ge11_route_' + route)
+    # components for which the generator set >= 4 legacy options to non-default values
+    rich_components = {'stage%d.%s' % (c['stage'], c['name']): len([p_ for p_ in flatten(
+        {k: v for k, v in c.items() if k not in ('variables', 'stage', 'name', 'executors', 'references')}) if p_ in OPTIONS])
+        for c in doc['components']}
+    stages_with_vars = {int(k) for p in doc.get('variables', {}).values() for k, v in p.get('stages', {}).items() if v}
     groups = set()
     for k in used:
         groups.add('k8s' if k.startswith('k8s') else 'lsf' if (k.startswith('lsf') or k in (
@@ -630,11 +668,22 @@ def judge_doc(doc, platform, route, w, scratch_root):
              'before': va, 'after': vb, 'section': (sections or {}).get(comp)}, finding_key=key)
 
     if set(before['components']) != set(after['components']):
-        report('components', None, 'identifiers', sorted(before['components']), sorted(after['components']))
+        report('components', None, 'identifiers present on one side only',
+               sorted(set(before['components']) - set(after['components'])),
+               sorted(set(after['components']) - set(before['components'])))
     for comp in sorted(before['components']):
         if comp not in after['components']:
             continue
         w.count('clause_component')
+        st_index = int(comp.split('.', 1)[0][5:])
+        if st_index >= 10:
+            # compared on both sides: the component lives in a stage whose index has two digits
+            w.count('clause_component_in_stage_ge10')
+            w.count('clause_component_in_stage_ge10_route_' + route)
+            if st_index in stages_with_vars:
+                w.count('clause_component_with_stage_variables_in_stage_ge10')
+            if rich_components.get(comp, 0) >= 4:
+                w.count('clause_component_with_options_in_stage_ge10')
         for path, va, vb in leaf_diff(before['components'][comp], after['components'][comp]):
             report('component', comp, path, va, vb)
     w.count('clause_environments', len(before['environments']))
@@ -680,8 +729,10 @@ def run_job(job, w):
     for i in range(job['docs']):
         # the first documents of every job are steered to cover every option path at least once
         fp = [p for p in force[i * 8:(i + 1) * 8] if p in SIMPLE_PATHS or p == 'command.interpreter']
-        doc, platform = gen_doc(r, fp)
         route = 'B' if (i % job['route_b_every'] == job['route_b_every'] - 1) else 'A'
+        # every job steers one document per route (and per 60 documents) to >= 11 stages, so that both routes
+        # compare components of two-digit stages whatever the seed; the random share comes on top
+        doc, platform = gen_doc(r, fp, min_stages=11 if i % 60 in (5, 7) else None)
         if route == 'B':
             # slice in which the recorded output-section mechanism cannot trigger (the package loader of
             # route B validates and would stop at it): every output entry spells out description and type
@@ -729,8 +780,10 @@ def main():
     if rp is not None:
         wit = rp['witness']
         w = vlib.Worker()
-        judge_doc(wit['doc'], wit['platform'], wit['route'], w, vlib.mkscratch('c19r'))
+        judge_doc(restore_int_keys(wit['doc']), wit['platform'], wit['route'], w, vlib.mkscratch('c19r'))
         c.merge_worker(w.summary())
+        if c.counters.get('generated_document_invalid'):
+            c.note_inconclusive('the stored document is not a valid FlowIR document any more: nothing was compared')
         sys.exit(finish_replay(c, 'document with %d components (route %s), %s' % (
             len(wit['doc']['components']), wit['route'], wit['where'])))
 
@@ -745,6 +798,14 @@ def main():
     c.floor('clause_component', 600 if c.tier == 'quick' else 16000)
     c.floor('clause_status', 300 if c.tier == 'quick' else 8000)
     c.floor('clause_environments', 300 if c.tier == 'quick' else 8000)
+    q = c.tier == 'quick'
+    c.floor('doc_stages_9-10', 5 if q else 100)
+    c.floor('doc_stages_ge11_route_A', 12 if q else 150)
+    c.floor('doc_stages_ge11_route_B', 12 if q else 150)
+    c.floor('clause_component_in_stage_ge10_route_A', 40 if q else 800)
+    c.floor('clause_component_in_stage_ge10_route_B', 20 if q else 400)
+    c.floor('clause_component_with_stage_variables_in_stage_ge10', 30 if q else 600)
+    c.floor('clause_component_with_options_in_stage_ge10', 30 if q else 600)
     c.floor('clause_env_name_embeds_section_prefix', 60 if c.tier == 'quick' else 1500)
     for pos in ('start', 'inside', 'end'):
         c.floor('clause_env_name_prefix_at_' + pos, 10 if c.tier == 'quick' else 250)
